@@ -33,14 +33,14 @@ func init() {
 				n = 40
 			}
 			return []core.Part{{Name: "registry", Bin: "raceov", Batches: n, Parallel: 4, TimeoutS: 900, Env: []string{"VERIF_YIELD=1"}},
-				{Name: "stalled-leave", Bin: "plain", Batches: 1, TimeoutS: 300}}
+				{Name: "stalled-leave", Bin: "plain", Batches: 1, TimeoutS: 300}, {Name: "stalled-manager", Bin: "plain", Batches: 1, TimeoutS: 400}}
 		},
 		Assumptions: []string{
 			"sequential specification (DESIGN Appendix F): per key an owner; Join ok iff free; Join exist iff taken; Leave frees iff owner; Send notexist iff free; Send delivered(c) iff owner = c",
 			"operation intervals: Join = [client's first write, OnJoinEvent]; Leave = [client close, OnLeaveEvent]; Send = [call, return]; an operation that never returned stays open to the end of the history",
 			"porcupine Unknown (checker timeout) is inconclusive; key function is the default (phone number)",
 		},
-	}, map[string]Worker{"registry": c11Worker, "stalled-leave": c11StalledLeave})
+	}, map[string]Worker{"registry": c11Worker, "stalled-leave": c11StalledLeave, "stalled-manager": c11StalledManager})
 }
 
 type regIn struct {
@@ -1016,4 +1016,180 @@ func c11StalledLeave(c *core.Collector, x *Ctx) {
 		}(k)
 	}
 	wg.Wait()
+}
+
+// c11StalledManager: a duplicate of an online key arrives while the session manager cannot serve it — a third terminal has
+// stopped reading, its connection's writer is parked in a socket write, and more commands than its queue holds are addressed to
+// it, so the manager goroutine waits (until that write's deadline ends the stalled connection). However long the duplicate has
+// to wait and whatever becomes of it: the owner keeps its key — commands for the key still reach the owner, and a further
+// connection presenting the key is still refused. Every verdict is taken after the stall is over, on state, not on timing.
+// (seed C11u1: join gives up after 3 s and queues a leave(key) to undo itself; for a refused duplicate that leave removes the
+// owner's registration.)
+func c11StalledManager(c *core.Collector, x *Ctx) {
+	c.Rule = "own server; terminal S joins, floods heartbeats without reading until the server's write to it is parked; owner A holds key K; 8 commands are sent to S at once (queue of 3: the manager blocks); 300 ms later a duplicate D presents K. After all commands have returned: A still answers, a command for K arrives at A, another duplicate E is refused, K had exactly one successful join and no leave. evaluation = one round"
+	for round := 0; round < c.N(1, 3); round++ {
+		c.Eval()
+		srv, err := svc.Start(func() service.TerminalEventer { return svc.NewRecorder() })
+		if err != nil {
+			c.Inconclusive()
+			return
+		}
+		keyS, keyK := fmt.Sprintf("%d", 3960000+round), fmt.Sprintf("%d", 3970000+round)
+		bad := func(sig, detail string) {
+			c.Violate(sig, detail, map[string]any{"kind": "c11stalledmanager", "key": keyK, "round": round})
+		}
+		a, err := svc.Dial(srv.Addr, round%2 == 1, keyK)
+		if err != nil {
+			c.Inconclusive()
+			return
+		}
+		defer a.Close()
+		a.Write(a.Frame(0x0002, 1, nil))
+		if rx, ok, to := a.Next(20 * time.Second); to || !ok || rx.F == nil || rx.F.ID != 0x8001 {
+			c.Inconclusive()
+			return
+		}
+		ts, err := svc.Dial(srv.Addr, false, keyS)
+		if err != nil {
+			c.Inconclusive()
+			return
+		}
+		ts.Close() // lends its frame builder only
+		raw, err := net.DialTimeout("tcp", srv.Addr, 5*time.Second)
+		if err != nil {
+			c.Inconclusive()
+			return
+		}
+		defer raw.Close()
+		raw.Write(ts.Frame(0x0002, 1, nil))
+		raw.SetReadDeadline(time.Now().Add(20 * time.Second))
+		if _, err := raw.Read(make([]byte, 15)); err != nil {
+			c.Inconclusive()
+			return
+		}
+		var batch []byte
+		for q := 0; q < 1000; q++ {
+			batch = append(batch, ts.Frame(0x0002, uint16(q+2), nil)...)
+		}
+		parked := false
+		pending := batch
+		start := time.Now()
+		for time.Since(start) < 30*time.Second && !parked {
+			raw.SetWriteDeadline(time.Now().Add(200 * time.Millisecond))
+			n, err := raw.Write(pending)
+			pending = pending[n:]
+			if len(pending) == 0 {
+				pending = batch
+			}
+			if err != nil {
+				if ne, ok := err.(net.Error); !ok || !ne.Timeout() {
+					break
+				}
+				parked = goroutineInIOWaitWrite()
+			}
+		}
+		if !parked {
+			c.Inconclusive()
+			continue
+		}
+		// more commands for S than its queue holds: the manager goroutine waits on the fourth
+		var cw sync.WaitGroup
+		for q := 0; q < 8; q++ {
+			cw.Add(1)
+			go func() {
+				defer cw.Done()
+				sendCmd(srv.G, keyS, consts.P8104QueryTerminalParams, nil, time.Second, 60*time.Second)
+			}()
+		}
+		time.Sleep(300 * time.Millisecond)
+		d, err := svc.Dial(srv.Addr, round%2 == 1, keyK)
+		if err != nil {
+			c.Inconclusive()
+			continue
+		}
+		t0 := time.Now()
+		d.Write(d.Frame(0x0002, 900, nil))
+		dClosed := d.WaitClosed(40 * time.Second)
+		waited := time.Since(t0)
+		d.Close()
+		if waited > 2*time.Second {
+			c.Count("duplicates_that_waited_for_a_stalled_manager", 1)
+		}
+		done := make(chan struct{})
+		go func() { cw.Wait(); close(done) }()
+		select {
+		case <-done:
+		case <-time.After(70 * time.Second):
+			c.Inconclusive() // (stranded callers are C13's subject)
+			continue
+		}
+		raw.Close()
+		time.Sleep(300 * time.Millisecond)
+		// ---- the verdicts, on the settled state
+		a.Write(a.Frame(0x0002, 2, nil))
+		alive := false
+		for {
+			rx, ok, to := a.Next(20 * time.Second)
+			if to {
+				c.Inconclusive()
+				break
+			}
+			if !ok {
+				bad("registry|a refused duplicate ended the owner's connection", fmt.Sprintf("key %s: the owner's connection was closed after a duplicate had presented the key during a manager stall (the duplicate waited %v, closed=%v)", keyK, waited.Round(time.Millisecond), dClosed))
+				break
+			}
+			if rx.F != nil && rx.F.ID == 0x8001 {
+				alive = true
+				break
+			}
+		}
+		if !alive {
+			continue
+		}
+		resCh := make(chan cmdResult, 1)
+		go func() {
+			resCh <- sendCmd(srv.G, keyK, consts.P8104QueryTerminalParams, nil, 3*time.Second, 3*time.Second+slackFor(3*time.Second))
+		}()
+		gotCmd := false
+		for !gotCmd {
+			rx, ok, to := a.Next(5 * time.Second)
+			if to || !ok {
+				break
+			}
+			if rx.F != nil && rx.F.ID == 0x8104 {
+				gotCmd = true
+				a.Write(a.Frame(0x0104, 3, append([]byte{byte(rx.F.Serial >> 8), byte(rx.F.Serial), 0})))
+			}
+		}
+		res := <-resCh
+		if res.kind == "notexist" {
+			bad("registry|a command for an online key returned not-exist", fmt.Sprintf("key %s: its owner is connected and answers heartbeats; a duplicate had presented the key while the manager was stalled (waited %v) — SendActiveMessage -> %s, command frame reached the owner: %v", keyK, waited.Round(time.Millisecond), res.kind, gotCmd))
+		} else if !gotCmd {
+			bad("routing|a command for an online key did not reach its owner", fmt.Sprintf("key %s: SendActiveMessage -> %s", keyK, res.kind))
+		}
+		e, err := svc.Dial(srv.Addr, round%2 == 1, keyK)
+		if err == nil {
+			e.Write(e.Frame(0x0002, 950, nil))
+			rx, ok, to := e.Next(3 * time.Second)
+			if !to && ok && rx.F != nil && rx.F.ID == 0x8001 {
+				// E was admitted; is the owner still live? then two live connections hold one key
+				a.Write(a.Frame(0x0002, 4, nil))
+				if rx2, ok2, to2 := a.Next(10 * time.Second); !to2 && ok2 && rx2.F != nil {
+					bad("registry|two live connections for one key", fmt.Sprintf("key %s: a connection presenting the key was admitted and served while the owner's connection is alive and served too (after a duplicate met a stalled manager, waited %v)", keyK, waited.Round(time.Millisecond)))
+				}
+			}
+			e.Close()
+		}
+		if rec := svc.Lookup(a.Phone, 1); rec != nil {
+			for _, ev := range rec.ReaderLog() {
+				if ev.Kind == "leave" {
+					bad("callback|leave callback for a connection that is still alive", fmt.Sprintf("key %s", keyK))
+				}
+			}
+		}
+		a.Close()
+		c.Count("stalled_manager_rounds_judged", 1)
+		c.NonTrivial(core.HashString("c11stalledmanager/" + keyK))
+	}
+	c.Floor("stalled_manager_rounds_judged", 1)
 }
